@@ -634,8 +634,9 @@ Definition clear_mesh (clear_props : bool) (s : mesh) : mesh :=
                vbu := vbu s; ebu := ebu s; fbu := fbu s; deferred := deferred s; fast := fast s;
                out_hes := []; inc_hfs := []; inc_cell := [];
                pv := pv s; pe := pe s; phe := phe s; pf := pf s; phf := phf s; pc := pc s; pm := pm s |} in
-  if clear_props then s0   (* clear_all_props(): still-held storages stay tracked and are NOT resized *)
-  else resize_cprops 0 (resize_fprops 0 (resize_eprops 0 (resize_vprops 0 s0))).
+  (* clear_all_props() only anonymizes the storages; still-held ones stay tracked, and after the
+     "fix: clear() resizes ..." commit they are resized to 0 in both cases *)
+  resize_cprops 0 (resize_fprops 0 (resize_eprops 0 (resize_vprops 0 s0))).
 
 (* ------------------------------------------------------------------ the step function *)
 
